@@ -156,6 +156,11 @@ def tables(cfg, crate, rep):
     rep.ob("C17.tables", "%s|%s" % (cfg, fn), ok, "every entry of the certificate's subjectAltName general_names is converted by the shared GeneralName converter and the results are what is returned",
            found={"converter_arg": arg[-80:], "calls_in_result": sorted(c.split("::")[-1] for c in cs)})
     c07.san_back(cfg, crate, rep)
+    # the importer decodes string values as the writer encodes them only while each string type stores and writes its own
+    # transfer encoding (alphabets, sinks)
+    if cfg == "K1":
+        import c13
+        common.borrow_rules(rep, lambda: (c13.alpha(cfg, crate, rep), c13.sink(cfg, crate, rep)), "C13.", "C17.strings")
     # "subject name ... equal": attribute types come back through DnType::from_oid, which must invert to_oid
     import c02
     n0_ = len(rep.obligations)
